@@ -18,10 +18,10 @@ rm -rf "$OUT"; mkdir -p "$OUT"
 POOLFILES=$(cd "$REPO" && grep -rl --include='*.go' 'sync\.Pool' . 2>/dev/null | grep -v '_test\.go$' | grep -v '^./internal/zzverif/' | sed 's|^\./||' \
   | grep -v -x -e internal/martian/proxy.go -e proxyproto/net.go -e conntrack/conntrack.go -e internal/martian/h2/relay.go -e pac/pool.go -e internal/martian/mitm/mitm.go -e ruleset/regexp.go -e header/header.go -e credentials.go -e internal/martian/header/via_modifier.go | sed 's|$|::@poolonly|')
 "$INSTR" "$REPO" "$OUT" $POOLFILES \
-  'internal/martian/proxy.go::::@range|Close|p.conns|func(c net.Conn) string { return c.RemoteAddr().String() }' \
+  'internal/martian/proxy.go::::@range|Close|p.conns|sync.KeyOf' \
   proxyproto/net.go \
   conntrack/conntrack.go \
-  'internal/martian/h2/relay.go::::@range|sendQueuedFramesUnderWindowSize|r.outputBuffers|func(k uint32) string { return fmt.Sprintf("%08d", k) }' \
+  'internal/martian/h2/relay.go::::@range|sendQueuedFramesUnderWindowSize|r.outputBuffers|sync.KeyOf' \
   pac/pool.go \
   'ruleset/regexp.go::.' \
   'header/header.go::.' \
